@@ -4,6 +4,8 @@ The tables are the ones `translator/tables.py` extracts from `colors.py` on ever
 -/
 import Mahotas.Proofs.C20
 import Mahotas.Proofs.C20Real
+import Mahotas.Proofs.C20Cast
+import Mahotas.Proofs.C20RoundTrip
 namespace Mahotas.C20
 open Mahotas Mahotas.Generated
 
@@ -48,7 +50,8 @@ theorem C20_model_is_standard (rgb xyz : List Float) :
     simp [srgbToLinearWith, srgbToLinearG, litsF, srgbToLinearStd, fwdLowWhenBelow, srgbScaleF, srgbAF, srgbGammaF,
       srgbSlopeF, srgbKneeF]
   have h2 : ∀ v, linearToSrgbWith invLowWhenBelow v = linearToSrgbStd v := fun v => by
-    simp [linearToSrgbWith, linearToSrgbStd, invLowWhenBelow, srgbAInvF, srgbSlopeInvF, srgbKneeInvF]
+    simp [linearToSrgbWith, linearToSrgbG, litsF, linearToSrgbStd, invLowWhenBelow, srgbAInvF, srgbSlopeInvF,
+      srgbKneeInvF]
   have h3 : ∀ t, labFWith labSmallWhenBelow labKneeExp t = labFStd t := fun t => by
     simp [labFWith, labFG, litsF, labFStd, labSmallWhenBelow, labKneeExp, labDeltaNumF, labDeltaDenF]
   have e1 : ∀ l, rgb2xyz l = rgb2xyzSpec l := fun l => by
@@ -57,7 +60,7 @@ theorem C20_model_is_standard (rgb xyz : List Float) :
     rcases l with _ | ⟨x, _ | ⟨y, _ | ⟨z, _ | ⟨w, t⟩⟩⟩⟩ <;>
       simp [xyz2lab, xyz2labWith, xyz2labG, litsF, xyz2labSpec, labWhiteF, funext h3]
   refine ⟨e1 rgb, ?_, ?_⟩
-  · simp only [xyz2rgb, xyz2rgbWith, xyz2rgbSpec, funext h2]; rfl
+  · simp only [xyz2rgb, xyz2rgbWith, xyz2rgbG, xyz2rgbSpec, funext h2]; rfl
   · simp only [rgb2lab, rgb2labSpec, e1, e3]
 
 /-- **C20-T1 (white and black).** In exact arithmetic the matrix maps linear white `(1,1,1)` to the
@@ -242,3 +245,136 @@ example : xyz2labG (fun t => t) litsR [1, 1, 1] (matVec [[1, 0, 0], [0, 1, 0], [
     [116 * 2 - 16, 0, 0] :=
   xyz2labG_grey _ 1 0 0 0 1 0 0 0 1 1 1 1 2 (by norm_num) (by norm_num) (by norm_num) one_ne_zero one_ne_zero
     one_ne_zero
+
+/-! ## Round 3: the integer cast of `stretch`, and `xyz2rgb ∘ rgb2xyz` over the reals -/
+
+/-- **C20 (stretch with an integer output dtype: the final cast).** `truncQ` is the exact counterpart of the
+driver's `truncF` (the C conversion double → integer that numpy's `astype` performs): it discards the
+fractional part, i.e. rounds **towards zero** — `floor` for non-negative values, `ceil` for negative ones,
+*not* `floor` throughout (`truncQ (-5/2) = -2`). Over the rationals, for every image (list of pixels) and
+every request with integer bounds `lo ≤ hi`, the integer image `stretch(img, lo, hi, dtype=int…)`
+(`stretchList` — which already caps at `hi` — followed by the truncation) is `map G` for a non-decreasing
+`G : ℚ → ℤ`, every output lies in `[lo, hi]` as an integer, and every minimal pixel maps to exactly `lo`.
+It rests on: truncation towards zero is non-decreasing on ℚ and fixes the integers. The `Float` instance that
+the driver runs (and the check compares bit for bit with the real code) differs from the rational one only
+by the roundings *before* the cast (that these roundings never carry a value out of `[lo, hi]` is what the
+cap at `hi` of the repair ensures and what the check validates on the real outputs). -/
+theorem C20_stretch_int_cast (xs : List Rat) (lo hi : Int) (h : lo ≤ hi) :
+    (∃ G : Rat → Int, (∀ x y, x ≤ y → G x ≤ G y) ∧
+      (stretchList xs (lo : Rat) (hi : Rat)).map truncQ = xs.map G ∧
+      (∀ x ∈ xs, lo ≤ G x ∧ G x ≤ hi) ∧ (∀ m ∈ xs, (∀ x ∈ xs, m ≤ x) → G m = lo)) ∧
+    (∀ x y : Rat, x ≤ y → truncQ x ≤ truncQ y) ∧ (∀ n : Int, truncQ (n : Rat) = n) :=
+  ⟨stretch_int_cast xs lo hi h, fun _ _ hxy => truncQ_mono hxy, truncQ_intCast⟩
+
+/-- **C20 (the sRGB encoder of `xyz2rgb` against the decoder of `rgb2xyz` — over the reals).** `encR` is the
+model's `linearToSrgbG` (the generic definition the driver runs at `Float` with `Float.pow`) at `ℝ` with
+`Real.rpow`, the extracted selection flag and the exact rationals of the extracted constants:
+`E(v) = 255·12.92·v` where `v ≤ 0.0031308`, `255·(1.055·v^(5/12) − 0.055)` elsewhere. With the standard's
+constants `E` is **not** an exact inverse of the decoder `T` everywhere, and this theorem says exactly where
+it is: `E(T(c)) = c` for every real `c` with `c/255 ≤ 12.92·0.0031308` (both on their linear segments) and
+for every `c` with `c/255 > 0.04045` (both on their power segments; `T(c) > 0.0031308` there). Between the
+two knees, `10.31473368 < c ≤ 10.31475`, decoder and encoder use different segments; the interval contains no
+integer (`12.92·0.0031308·255 > 10`, `0.04045·255 < 11`), so `E(T(k)) = k` for every natural `k` (the whole
+8-bit lattice, and any wider integer range). At its knee the encoder's power segment (`encHigh`, the `else`
+branch of the closed form as a function on all of `ℝ`) lies *below* its linear
+segment (the encoder steps down there), by at most `1.02·10⁻⁵` 8-bit units. Slopes: the linear segment has
+slope exactly `3294.6 = 12.92·255`, the power segment is increasing with slope at most `3294.6` above the
+knee (Bernoulli's inequality for the exponent `5/12` and `1 ≤ (31008/1055)¹²·0.0031308⁷`). -/
+theorem C20_encoder_inverts_decoder :
+    (∀ v : ℝ, encR v = (if v ≤ 7827 / 2500000 then 323 / 25 * v
+        else (1 + 11 / 200) * v ^ ((5 : ℝ) / 12) - 11 / 200) * 255) ∧
+    (∀ c : ℝ, c / 255 ≤ 323 / 25 * (7827 / 2500000) → encR (srgbR c) = c) ∧
+    (∀ c : ℝ, 809 / 20000 < c / 255 → 7827 / 2500000 < srgbR c ∧ encR (srgbR c) = c) ∧
+    ((10 : ℝ) / 255 ≤ 323 / 25 * (7827 / 2500000) ∧ (323 / 25 * (7827 / 2500000) : ℝ) < 809 / 20000 ∧
+      (809 : ℝ) / 20000 < 11 / 255) ∧
+    (∀ k : Nat, encR (srgbR (k : ℝ)) = (k : ℝ)) ∧
+    (16473 / 5 * (7827 / 2500000 : ℝ) - 102 / 10000000 ≤ encHigh (7827 / 2500000) ∧
+      encHigh (7827 / 2500000) ≤ 16473 / 5 * (7827 / 2500000 : ℝ)) ∧
+    (∀ x y : ℝ, x ≤ 7827 / 2500000 → y ≤ 7827 / 2500000 → |encR x - encR y| = 16473 / 5 * |x - y|) ∧
+    (∀ x y : ℝ, 7827 / 2500000 < x → 7827 / 2500000 < y → |encR x - encR y| ≤ 16473 / 5 * |x - y|) ∧
+    (∀ x y : ℝ, 7827 / 2500000 < x → x ≤ y → encR x ≤ encR y) :=
+  ⟨encR_eq, fun _ h => encR_srgbR_low h, fun _ h => ⟨srgbR_above_knee h, encR_srgbR_high h⟩,
+   ⟨by norm_num, by norm_num, by norm_num⟩, encR_srgbR_nat, encHigh_knee,
+   fun _ _ hx hy => encR_low_lip hx hy, fun _ _ hx hy => encR_high_lip hx hy,
+   fun x y hx hxy => by
+     rw [encR_high' hx, encR_high' (lt_of_lt_of_le hx hxy)]
+     exact (encHigh_lip (le_of_lt hx) hxy).1⟩
+
+/-- **C20 (round trip with any encoder).** The matrix part of the round trip is exact arithmetic on the
+extracted 4-digit matrices: `M⁻¹(M s) = s + D s` where the absolute row sums of `D = M⁻¹M − I` are the
+entries of `inverseDefect` (`3.142·10⁻⁵, 6.993·10⁻⁵, 1.585·10⁻⁵`, all `≤ 7·10⁻⁵`: `C20_inverse_matrix`), and the
+decoded channels lie in `[0,1]`. Hence for **any** encoder `enc` that is `L`-Lipschitz on an interval
+`[lo, hi]`, and any pixel in `[0,255]³` whose decoded channels `T(c)` lie at least `7·10⁻⁵` inside `[lo, hi]`
+and are inverted by `enc`, every channel of `xyz2rgbG M⁻¹ enc (rgb2xyz pixel)` is within `L` times the
+corresponding row sum of the original channel. -/
+theorem C20_roundtrip_any_encoder (enc : ℝ → ℝ) (L lo hi : ℝ)
+    (hlip : ∀ x y : ℝ, lo ≤ x → x ≤ hi → lo ≤ y → y ≤ hi → |enc x - enc y| ≤ L * |x - y|)
+    (r g b : ℝ) (hr : 0 ≤ r ∧ r ≤ 255) (hg : 0 ≤ g ∧ g ≤ 255) (hb : 0 ≤ b ∧ b ≤ 255)
+    (ir : enc (srgbR r) = r ∧ lo + 7 / 100000 ≤ srgbR r ∧ srgbR r + 7 / 100000 ≤ hi)
+    (ig : enc (srgbR g) = g ∧ lo + 7 / 100000 ≤ srgbR g ∧ srgbR g + 7 / 100000 ≤ hi)
+    (ib : enc (srgbR b) = b ∧ lo + 7 / 100000 ≤ srgbR b ∧ srgbR b + 7 / 100000 ≤ hi) :
+    inverseDefect = [1571 / 50000000, 6993 / 100000000, 317 / 20000000] ∧
+    ∃ r' g' b' : ℝ, xyz2rgbG (castM xyz2rgbMQ) enc (rgb2xyzR [r, g, b]) = [r', g', b'] ∧
+      |r' - r| ≤ L * (1571 / 50000000) ∧ |g' - g| ≤ L * (6993 / 100000000) ∧
+      |b' - b| ≤ L * (317 / 20000000) :=
+  ⟨by decide +kernel, roundTrip_any_encoder enc L lo hi hlip hr hg hb ir ig ib⟩
+
+/-- **C20 (`xyz2rgb` inverts `rgb2xyz` to within rounding — over the reals, every pixel).** `xyz2rgbR` is the
+model's `xyz2rgbG` (extracted inverse matrix, then the encoder `encR`) and `rgb2xyzR` the model's `rgb2xyzG`
+(decoder `srgbR`, then the extracted matrix), both the generic definitions the driver runs at `Float`, here
+at `ℝ` with `Real.rpow`. For **every** real pixel `(r,g,b) ∈ [0,255]³` each channel of
+`xyz2rgb(rgb2xyz(r,g,b))` differs from the original by at most `3294.6` (the slope `12.92·255` of the encoder)
+times the absolute row sum of `M⁻¹M − I` for that channel (`inverseDefect`): `0.1036`, `0.2304`, `0.0523`
+8-bit units for R, G, B — all below `3294.6·7·10⁻⁵ = 0.230622`, the figure announced by `C20_inverse_matrix`
+and inside the tolerance `0.25` of the check (measured maximum on the lattice: 0.0763). Nothing is assumed
+about the knees: where the perturbed linear value and `T(c)` fall on different segments of the encoder
+(only possible for `c` near 10.3147) the step of the encoder at its knee (`≤ 1.02·10⁻⁵`) and the gap between the
+two knees (`255·(0.04045 − 12.92·0.0031308) = 1.632·10⁻⁵`) are far smaller than the bound. The statement is
+about real arithmetic; the `Float` instance differs by rounding and by libm's `pow` (validated at 1e-9). -/
+theorem C20_xyz2rgb_roundtrip (r g b : ℝ) (hr : 0 ≤ r ∧ r ≤ 255) (hg : 0 ≤ g ∧ g ≤ 255) (hb : 0 ≤ b ∧ b ≤ 255) :
+    inverseDefect = [1571 / 50000000, 6993 / 100000000, 317 / 20000000] ∧
+    (16473 / 5 : ℝ) = 323 / 25 * 255 ∧ (16473 / 5 : ℝ) * (7 / 100000) = 115311 / 500000 ∧
+    ∃ r' g' b' : ℝ, xyz2rgbR (rgb2xyzR [r, g, b]) = [r', g', b'] ∧
+      |r' - r| ≤ 16473 / 5 * (1571 / 50000000) ∧ |g' - g| ≤ 16473 / 5 * (6993 / 100000000) ∧
+      |b' - b| ≤ 16473 / 5 * (317 / 20000000) ∧
+      |r' - r| ≤ 115311 / 500000 ∧ |g' - g| ≤ 115311 / 500000 ∧ |b' - b| ≤ 115311 / 500000 := by
+  refine ⟨by decide +kernel, by norm_num, by norm_num, ?_⟩
+  obtain ⟨r', g', b', e, b1, b2, b3⟩ := roundTrip_encR_all hr hg hb
+  refine ⟨r', g', b', e, b1, b2, b3, ?_, ?_, ?_⟩
+  · exact le_trans b1 (by norm_num)
+  · exact le_trans b2 (by norm_num)
+  · exact le_trans b3 (by norm_num)
+
+/-! non-vacuity (round 3) -/
+example : truncQ (-5 / 2) = -2 ∧ truncQ (5 / 2) = 2 ∧ (-5 / 2 : Rat).floor = -3 := by decide +kernel
+example : (stretchList [(3 : Rat), 7, 5, 3] ((-5 : Int) : Rat) ((100 : Int) : Rat)).map truncQ = [-5, 100, 47, -5] := by
+  decide +kernel
+example : (stretchList [(0 : Rat), 1, 3] ((-10 : Int) : Rat) ((-5 : Int) : Rat)).map truncQ = [-10, -8, -5] := by
+  decide +kernel
+example : encR (srgbR 200) = 200 ∧ encR (srgbR 3) = 3 :=
+  ⟨by simpa using encR_srgbR_nat 200, by simpa using encR_srgbR_nat 3⟩
+/-- the hypotheses of `C20_roundtrip_any_encoder` are satisfiable: the model's own encoder on a dark pixel
+    (everything stays on the linear segment, slope `3294.6`) -/
+example : ∃ r' g' b' : ℝ, xyz2rgbG (castM xyz2rgbMQ) encR (rgb2xyzR [3, 7, 10]) = [r', g', b'] ∧
+    |r' - 3| ≤ 16473 / 5 * (1571 / 50000000) ∧ |g' - 7| ≤ 16473 / 5 * (6993 / 100000000) ∧
+    |b' - 10| ≤ 16473 / 5 * (317 / 20000000) := by
+  have dark : ∀ c : ℝ, 0 ≤ c → c ≤ 10 →
+      encR (srgbR c) = c ∧ (-1 : ℝ) + 7 / 100000 ≤ srgbR c ∧ srgbR c + 7 / 100000 ≤ 7827 / 2500000 := by
+    intro c h0 h1
+    have hk : c / 255 ≤ 809 / 20000 := by rw [div_le_iff₀ (by norm_num)]; linarith
+    refine ⟨encR_srgbR_low (by rw [div_le_iff₀ (by norm_num)]; linarith), ?_, ?_⟩
+    · have := (srgbR_unit h0 (by linarith)).1; linarith
+    · rw [srgbR_eq, if_pos hk]
+      have : c / 255 / (323 / 25) ≤ 10 / 255 / (323 / 25) := by
+        apply div_le_div_of_nonneg_right _ (by norm_num)
+        apply div_le_div_of_nonneg_right h1 (by norm_num)
+      have e : (10 : ℝ) / 255 / (323 / 25) + 7 / 100000 ≤ 7827 / 2500000 := by norm_num
+      linarith
+  exact (C20_roundtrip_any_encoder encR (16473 / 5) (-1) (7827 / 2500000)
+    (fun x y _ hx _ hy => le_of_eq (encR_low_lip hx hy)) 3 7 10 (by norm_num) (by norm_num) (by norm_num)
+    (dark 3 (by norm_num) (by norm_num)) (dark 7 (by norm_num) (by norm_num))
+    (dark 10 (by norm_num) (by norm_num))).2
+example : ∃ r' g' b' : ℝ, xyz2rgbR (rgb2xyzR [0, 255, 255]) = [r', g', b'] ∧ |r' - 0| ≤ 115311 / 500000 := by
+  obtain ⟨_, _, _, r', g', b', e, _, _, _, h, _, _⟩ :=
+    C20_xyz2rgb_roundtrip 0 255 255 (by norm_num) (by norm_num) (by norm_num)
+  exact ⟨r', g', b', e, h⟩
